@@ -242,8 +242,7 @@ fn c14_r_int_is_numberlike_4() {
     r_int(&b);
 }
 
-//@ tier: attempt
-//@ mem_gb: 24
+//@ tier: thorough
 //@ funcs: read::yaml::parse_float, normalise_float, parse_sign, strip
 //@ bounds: every ASCII string of length 5 that starts with a sign and a dot (`+.` / `-.` + 3 symbolic bytes < 0x80) -- the reader-side counterpart of c14_w_signed_dot_family_5
 //@ assume: alloc::fmt::format stubbed (the normalised float TEXT is not the subject)
